@@ -67,3 +67,102 @@ Fixpoint same_length (n : nat) (rows : list (list str)) : bool :=
 
 Definition rectangular (rows : list (list str)) : Prop :=
   match rows with [] => True | r :: _ => same_length (length r) rows = true end.
+
+(* ---- Lua 5.4 reference manual 3.1: a short literal string in double
+   quotes.  The reader returns the bytes denoted and the text after the
+   closing quote.  Escapes: \a \b \f \n \r \t \v \\ \dquote \quote, backslash
+   newline, and \ddd (one to three decimal digits, value at most 255).  A raw
+   newline or an unknown escape is a lexical error.  (\x, \z, \u are not
+   needed to read what the encoder writes and are left out.) ---- *)
+Definition lua_is_digit (c : N) : bool := (48 <=? c) && (c <=? 57).
+
+Definition lua_simple_escape (d : N) : option N :=
+  if d =? 97 then Some 7 else if d =? 98 then Some 8 else if d =? 102 then Some 12
+  else if d =? 110 then Some 10 else if d =? 114 then Some 13 else if d =? 116 then Some 9
+  else if d =? 118 then Some 11 else if d =? 92 then Some 92 else if d =? 34 then Some 34
+  else if d =? 39 then Some 39 else if d =? 10 then Some 10 else None.
+
+Definition lua_with (v : N) (r : option (str * str)) : option (str * str) :=
+  if v <=? 255 then match r with Some (s, rest) => Some (v :: s, rest) | None => None end else None.
+
+Fixpoint lua_read_dq (s : str) : option (str * str) :=
+  match s with
+  | [] => None
+  | c :: r =>
+      if c =? 34 then Some ([], r)
+      else if c =? 10 then None
+      else if c =? 92 then
+        match r with
+        | [] => None
+        | d :: r1 =>
+            if lua_is_digit d then
+              match r1 with
+              | d2 :: r2 =>
+                  if lua_is_digit d2 then
+                    match r2 with
+                    | d3 :: r3 =>
+                        if lua_is_digit d3
+                        then lua_with ((d - 48) * 100 + (d2 - 48) * 10 + (d3 - 48)) (lua_read_dq r3)
+                        else lua_with ((d - 48) * 10 + (d2 - 48)) (lua_read_dq r2)
+                    | [] => lua_with ((d - 48) * 10 + (d2 - 48)) (lua_read_dq r2)
+                    end
+                  else lua_with (d - 48) (lua_read_dq r1)
+              | [] => lua_with (d - 48) (lua_read_dq r1)
+              end
+            else
+              match lua_simple_escape d with
+              | Some x => lua_with x (lua_read_dq r1)
+              | None => None
+              end
+        end
+      else lua_with c (lua_read_dq r)
+  end.
+
+(* a Lua Name that is not a reserved word *)
+Definition lua_reserved : list str :=
+  [[97;110;100]; [98;114;101;97;107]; [100;111]; [101;108;115;101]; [101;108;115;101;105;102]; [101;110;100];
+   [102;97;108;115;101]; [102;111;114]; [102;117;110;99;116;105;111;110]; [103;111;116;111]; [105;102]; [105;110];
+   [108;111;99;97;108]; [110;105;108]; [110;111;116]; [111;114]; [114;101;112;101;97;116]; [114;101;116;117;114;110];
+   [116;104;101;110]; [116;114;117;101]; [117;110;116;105;108]; [119;104;105;108;101]].
+
+Definition lua_name_start (c : N) : bool := in_ranges c [(65, 90); (95, 95); (97, 122)].
+Definition lua_name_char (c : N) : bool := in_ranges c [(48, 57); (65, 90); (95, 95); (97, 122)].
+
+Definition lua_is_name (s : str) : bool :=
+  match s with
+  | [] => false
+  | c :: r => lua_name_start c && forallb lua_name_char r && negb (existsb (str_eqb s) lua_reserved)
+  end.
+
+(* ---- .properties: the domain on which the magiconair writer is faithful.
+   A key is non-empty, holds no equals sign (the writer escapes only space
+   and colon) and does not start with a comment character; a value does not
+   start with a space (leading blanks are skipped by every reader); no value
+   holds a dollar-brace (the library would try to expand it).  The key/value
+   separator is blanks, one of colon / equals, blanks. ---- *)
+Definition pws (c : N) : bool := (c =? 32) || (c =? 12) || (c =? 9).
+
+Definition props_key_ok (k : str) : bool :=
+  match k with
+  | [] => false
+  | c :: _ => negb (c =? 35) && negb (c =? 33) && negb (existsb (fun x => x =? 61) k)
+  end.
+
+Definition props_value_ok (v : str) : bool :=
+  match v with c :: _ => negb (c =? 32) | [] => true end.
+
+Fixpoint no_dollar_brace (v : str) : bool :=
+  match v with
+  | [] => true
+  | c :: r => negb ((c =? 36) && match r with d :: _ => d =? 123 | [] => false end) && no_dollar_brace r
+  end.
+
+Fixpoint props_sep_tail (s : str) : bool :=      (* after the leading blanks *)
+  match s with
+  | [] => false
+  | c :: r => if pws c then props_sep_tail r else ((c =? 58) || (c =? 61)) && forallb pws r
+  end.
+Definition props_sep_ok (sep : str) : bool := props_sep_tail sep.
+
+Definition props_entry_ok (kv : str * str) : Prop :=
+  props_key_ok (fst kv) = true /\ props_value_ok (snd kv) = true /\ no_dollar_brace (snd kv) = true.
